@@ -68,6 +68,12 @@ type Resolver struct {
 	// key which has aged out of the RFC 5011 lifecycle can't be
 	// resurrected from the mutable copy on the next refresh.
 	configuredRootKeys []dns.RR
+	// unpersistedRevocations holds the revocations AutoTA has accepted
+	// but not yet written to the tombstone file. It is the only record
+	// of them between two refreshes when the writes failed, so the next
+	// refresh starts from it instead of from what the disk still says.
+	// Guarded by the resolver lock; nil once a tombstone write lands.
+	unpersistedRevocations Tombstones
 
 	qnameMinLevel int
 	netTimeout    time.Duration
